@@ -97,6 +97,7 @@ HARMLESS = [
     ('C18', 'sc3/base/model.py', "        except KeyError as e:\n            err = True", "        except KeyError as e:\n            err = False", 'unregister stays silent on a missing registration (not asked for by C18)'),
     ('C19', 'sc3/synth/envelope.py', "        return cls([0, level, 0], [dur, dur], 'sine')", "        return cls([0, level, 0], [dur, dur], 'sin')", "Env.sine: the other name of the same shape"),
     ('C13', 'sc3/seq/patterns/listpatterns.py', "                            lst[bi.mod(pos + j, size)], inval)", "                            lst[(pos + j) % size], inval)", "Pslide: Python's % instead of bi.mod"),
+    ('C13', 'sc3/seq/patterns/listpatterns.py', "                if wrap:\n                    for j in range(lval):\n                        inval = yield from stm.embed(\n                            lst[bi.mod(pos + j, size)], inval)\n                else:\n                    for j in range(lval):\n                        if 0 <= pos + j < size:\n                            inval = yield from stm.embed(\n                                lst[pos + j], inval)\n                        else:\n                            return inval\n", "                if not wrap:\n                    for j in range(lval):\n                        if 0 <= pos + j < size:\n                            inval = yield from stm.embed(\n                                lst[pos + j], inval)\n                        else:\n                            return inval\n                else:\n                    for j in range(lval):\n                        inval = yield from stm.embed(\n                            lst[bi.mod(pos + j, size)], inval)\n", 'Pslide: branches (each with its loop) exchanged under a negated test'),
 ]
 
 BREAKING = [
@@ -216,6 +217,9 @@ BREAKING = [
     ('C13', 'sc3/seq/patterns/listpatterns.py', "                inval = yield stream_lst[indx % size].next(inval)", "                inval = yield stm.stream(self.lst[indx % size]).next(inval)", 'Pswitch1 restarts the chosen item on every pass'),
     ('C13', 'sc3/seq/patterns/listpatterns.py', "                pos += step_stream.next(inval)  # raises StopStream", "                pos -= step_stream.next(inval)  # raises StopStream", 'Pslide slides backwards'),
     ('C13', 'sc3/seq/patterns/listpatterns.py', "                    item = item[j % len(item)]", "                    item = item[0]", 'Place always takes the first element of a sub-list'),
+    ('C13', 'sc3/seq/patterns/filterpatterns.py', "                inval = yield next - prev\n                prev = next", "                inval = yield next - prev", 'Pdiff keeps comparing with the first value'),
+    ('C13', 'sc3/seq/patterns/filterpatterns.py', "                if trig:\n                    last_inval = stream.next(inval)", "                if not trig:\n                    last_inval = stream.next(inval)", 'Platch advances on a false trigger'),
+    ('C13', 'sc3/seq/patterns/filterpatterns.py', "                    inval = yield (1 - c) * value", "                    inval = yield (1 + c) * value", 'Pprorate: the two parts do not add up'),
 ]
 
 
